@@ -869,6 +869,36 @@ func dirWriteOrder(c *Check, rule string) {
 					}
 				}
 				ok2 := len(producers) > 0 && engine.OriginsAllFromCall(a, producers, false)
+				// the list kept in a field of an accumulator that the walk fills: every store into that field, anywhere,
+				// is an append onto the field itself (nothing replaces or truncates it)
+				if !ok2 {
+					for _, o := range engine.Origins(a) {
+						ld, isLd := o.(*ssa.UnOp)
+						if !isLd {
+							continue
+						}
+						fa, isFA := ld.X.(*ssa.FieldAddr)
+						if !isFA {
+							continue
+						}
+						fkey := engine.FieldKeyOf(fa.X.Type(), fa.Field)
+						stores := storesToField(c, fkey)
+						onlyAppends := len(stores) > 0
+						for _, st := range stores {
+							app, isCall := st.Val.(*ssa.Call)
+							if !isCall {
+								onlyAppends = false
+								continue
+							}
+							if b, isB := app.Call.Value.(*ssa.Builtin); !isB || b.Name() != "append" || len(app.Call.Args) == 0 || !isLoadOfField(app.Call.Args[0], fkey) {
+								onlyAppends = false
+							}
+						}
+						if onlyAppends {
+							ok2 = true
+						}
+					}
+				}
 				c.Require(ok2, rule, "all-blobs-uploaded/"+c.P.FuncName(fn), "the upload helper is given exactly the list of files the tree builder collected", "the list of files to upload is replaced or emptied on some path before the upload: the tree (and the result naming it) can be stored while file blobs it references were never uploaded to this backend", c.P.InstrPos(hp))
 			}
 		}
